@@ -317,7 +317,8 @@ fn csv_part(ctx: &RunCtx, report: &mut Report) {
     }
     rec(rows.len(), max_rows, &mut vec![], &mut tables);
     let mut vehicle_tables: Vec<Vec<usize>> = vec![];
-    rec(vehicles.len(), 2, &mut vec![], &mut vehicle_tables);
+    // up to three rows: the same profile in neighbouring and in non-neighbouring rows
+    rec(vehicles.len(), 3, &mut vec![], &mut vehicle_tables);
     for jt in &tables {
         // a job id must not carry two rows of the same kind... any combination the docs allow: pickup+delivery of one id
         let jobs_csv = format!(
@@ -461,7 +462,9 @@ fn slice(tier: Tier) -> Vec<(String, PProblem)> {
     }
     // recharge stations, required breaks, time-dependent matrices
     let step = tier.pick(6, 1);
+    out.extend(family_combo(2).into_iter().step_by(tier.pick(8, 1)).map(|p| ("combo".to_string(), p)));
     if tier != Tier::Quick {
+        out.extend(family_combo(3).into_iter().map(|p| ("combo".to_string(), p)));
         out.extend(family_cluster().into_iter().map(|p| ("cluster".to_string(), p)));
         out.extend(family_cluster_attr().into_iter().map(|p| ("cluster".to_string(), p)));
         out.extend(family_mixed10().into_iter().map(|p| ("mixed10".to_string(), p)));
